@@ -65,6 +65,8 @@ impl W {
         if tok == b"EGLD" { return; }
         let acc = self.w.r.blockchain_mock.state.accounts.get_mut(tm).unwrap();
         acc.esdt.set_roles(tok.to_vec(), vec![b"ESDTRoleLocalMint".to_vec(), b"ESDTRoleLocalBurn".to_vec()]);
+        // anybody who issues a token can grant its roles to the manager's address: the manager must refuse a foreign token by itself
+        for other in [&b"TOK-123456"[..], b"OTH-654321"] { if other != tok { acc.esdt.set_roles(other.to_vec(), vec![b"ESDTRoleLocalMint".to_vec(), b"ESDTRoleLocalBurn".to_vec()]); } }
     }
     /// run an ITS transaction; records the step; collects pending asynchronous work
     fn its_tx(&mut self, name: &str, caller: &VMAddress, ep: &str, args: Vec<Vec<u8>>, egld: u64, esdt: &[(Vec<u8>, u64, BigUint)], mut opj: Value) -> (bool, Vec<Vec<u8>>, Option<VMAddress>) {
@@ -243,6 +245,16 @@ pub fn run(seed: u64, ntraces: usize) {
                     script.extend([1700u64, 10, 21, 20, 10, 1702, 10, 20, 20, 10, 1700, 21, 10, 20, 10, 1700, 1700, 21, 24, 20, 20]);   // last part: a delivery fails while another of the same token is in flight
                 }
                 else if d == 12 {   // outbound battery: payment shapes x destination routing, with gas
+                    // first: a mint/burn manager (custom token OTH) that also holds the burn role of TOK is paid with TOK: refused; then with its own token: burned
+                    { let u0 = g.users[0].clone(); let salt = vec![0x5au8; 32]; let opz = g.operator.clone();
+                      let (okc, retsc, depc) = g.its_tx("registerCustom", &u0, "registerCustomToken", vec![salt.clone(), tok2.clone(), vec![1u8], opz.to_vec()], 0, &[],
+                          json!({"salt": hx(&salt), "token": hx(&tok2), "ty": 1, "operator": hx(opz.as_bytes())}));
+                      if okc { let tmc = depc.unwrap(); g.grant_roles(&tmc, &tok2); let tidc = retsc.last().unwrap().clone();
+                          for (pt, amt) in [(tok.clone(), 7u64), (tok2.clone(), 9u64)] {
+                              let e = vec![(pt.clone(), 0u64, bn(amt))];
+                              g.its_tx("transfer", &u0, "interchainTransfer", vec![tidc.clone(), b"ethereum".to_vec(), b"0xdead".to_vec(), vec![], vec![]], 0, &e,
+                                  json!({"token_id": hx(&tidc), "dchain": hx(b"ethereum"), "daddr": hx(b"0xdead"), "metadata": "", "gas": "0"})); }
+                          g.toks.push(Tok { id: tidc, kind: "mint", tm: tmc, token: Some(tok2.clone()), salt, deployer: u0.clone(), supply: 0, minter: vec![], custody: 0 }); } }
                     for sh in [9u64, 8, 0, 1, 2] { for ch in 0..5u64 { script.push(3000 + sh * 10 + ch); } }
                     for sh in [9u64, 8, 1] { for ch in 0..2u64 { script.push(3500 + sh * 10 + ch); } }
                     script.extend([3095u64, 3595, 3085, 3585, 3596, 3290, 3291]);
